@@ -186,7 +186,9 @@ fn any_damage(rng: &mut u64, image: &Image, frames: &[crate::iotrace::FrameInfo]
             })
         }
         12 => {
-            let stray_names = ["wal-0000000000000000001", "wal-000000000000000000001", "WAL-00000000000000000001", "notes.txt", ".lock", "wal-0000000000000000000a", "wal-"];
+            let stray_names = ["wal-0000000000000000001", "wal-000000000000000000001", "WAL-00000000000000000001", "notes.txt", ".lock", "wal-0000000000000000000a", "wal-",
+                // 20 ASCII digits, but not a u64
+                "wal-18446744073709551616", "wal-99999999999999999999", "wal-20000000000000000000"];
             let name = if splitmix(rng) % 3 == 0 {
                 crate::damage::multibyte_wal_like_name((splitmix(rng) % 23) as usize, splitmix(rng) % 3)
             } else {
